@@ -302,3 +302,45 @@ def guard_summary(pc):
         if at and all((mentions(a, CONN) or mentions(a, STATE)) and 'poll_fn' not in repr(a) for a in at):
             keep.append(show(c))
     return ' && '.join(sorted(keep)) or 'true'
+
+
+_DEP_DEPTH = [0]
+_DEP_CACHE = {}
+
+
+def depends(cx, rule, prop, rule_ids, name, prog=None, only=None):
+    """import the verdict of other properties' rules that establish a fact this property relies on.
+       Returns the list of imported violations (already reported on `rule` under the key `<name>|broken|<keys>`).
+       Imports are one level deep: a check that runs as a dependency does not import in turn (its own imported rules
+       are the business of the property that owns them), which also breaks import cycles."""
+    import importlib
+    from analysis import report
+    prog = prog or cx.prog
+    if _DEP_DEPTH[0] >= 1:
+        return []
+    ck = (prop, id(prog), cx.check.tier)
+    if ck not in _DEP_CACHE:
+        sub = report.Check(prop, cx.check.tier)
+        scx = Cx(sub, {'default': prog})
+        scx._walks = cx._walks
+        _DEP_DEPTH[0] += 1
+        try:
+            importlib.import_module('rules.' + prop).check(scx)
+            _DEP_CACHE[ck] = (sub, None)
+        except report.AnchorLost as e:
+            _DEP_CACHE[ck] = (sub, str(e))
+        finally:
+            _DEP_DEPTH[0] -= 1
+    sub, lost = _DEP_CACHE[ck]
+    if lost is not None:
+        rule.violation('%s|anchor' % name, 'the check establishing "%s" lost its anchor: %s' % (name, lost))
+        return []
+    import re as _re
+    # `only`: import just the instances of those rules that this property needs (a broader import would raise an alarm for
+    # this property on a tree where only the other property is broken)
+    broken = [v for r in sub.rules if r.rid in rule_ids for v in r.violations if only is None or _re.search(only, v.key)]
+    rule.instance('%s: established by %s %s%s' % (name, prop, '/'.join(rule_ids), ' (instances matching /%s/)' % only if only else ''))
+    if broken:
+        rule.violation('%s|broken|%s' % (name, ';'.join(sorted(v.key for v in broken))), '%s does not hold (%s)' % (
+            name, '; '.join('%s: %s' % (v.key, v.what[:160]) for v in broken[:3])), loc=prop)
+    return broken
